@@ -96,6 +96,26 @@ theorem more_iterations_stable (m m' : Nat) (hm : m ≤ m') : ∀ (fuel : Nat) (
 /-! non-vacuity: the scalar loop c ↦ c/2 + 1 from 0 with tolerance 1/10 converges (to within tol of the fixed point 2) -/
 def Fh : List Q → List Q := fun p => p.map fun c => c / 2 + 1
 def mixh : Nat → List (List Q) → List (List Q) → List Q := fun _ ch _ => ch.getLastD []
+/-- the per-sample control that the driver runs against `System.predict` — convergence and give-up tests GENERATED from
+    `_end_conditions_met` — is the reference control the theorems above are about -/
+theorem generated_fpi_is_model (maxIter : Nat) : ∀ (fuel : Nat) (s : FpiState) (ch rh : List (List Q)),
+    fpiRunGen F mix tol maxIter fuel s ch rh = fpiRun F mix tol maxIter fuel s ch rh
+  | 0, s, _, _ => by simp [fpiRunGen, fpiRun]
+  | fuel + 1, s, ch, rh => by
+      unfold fpiRunGen fpiRun
+      simp only [Gen.fpiWithin, Gen.fpiGiveUp, generated_fpi_is_model maxIter fuel, decide_eq_true_eq]
+
+/-- on giving up, every output written by the loop's components is invalidated for the non-converged samples (generated
+    from the give-up branch of `_end_conditions_met`): the model's `fpiOutput = none` speaks for all of them -/
+theorem give_up_invalidates_every_loop_output : Gen.fpiInvalidatesEveryLoopOutput = true := rfl
+
+/-- hence the returned value of the generated control is a fixed point within tolerance, too -/
+theorem generated_returned_is_fixed_point (maxIter fuel : Nat) (s0 : FpiState) (h0 : s0.conv = false) (y : List Q)
+    (h : fpiOutput (fpiRunGen F mix tol maxIter fuel s0 [] []) = some y) :
+    ∃ c, y = F c ∧ maxAbsDiff y c ≤ tol := by
+  rw [generated_fpi_is_model] at h
+  exact returned_is_fixed_point F mix tol maxIter fuel s0 h0 y h
+
 example : (fpiRun Fh mixh (1/10) 20 22 { prev := [0], y := [] } [] []).conv = true := by decide +kernel
 example : fpiOutput (fpiRun Fh mixh (1/10) 2 22 { prev := [0], y := [] } [] []) = none := by decide +kernel
 
